@@ -130,7 +130,7 @@ func c06Body(e *Env) {
 	if c.Tier == "thorough" {
 		maxExh, nrand = 7, 24
 	}
-	plan := CrashPlan{From: 0, MaxExh: maxExh, NRandom: nrand, PageSize: p.Cfg.PageSize, Tear: true, Rng: e.Rng("crash"), Only: c.Crash, Stop: e.Failed, SparseK: big}
+	plan := CrashPlan{From: 0, MaxExh: maxExh, NRandom: nrand, PageSize: p.Cfg.PageSize, Tear: true, Rng: e.Rng("crash"), Only: c.Crash, Stop: func() bool { return e.Failed() || outOfTime() }, SparseK: big}
 	evals := 0
 	// reopen restarts callbacks' baseline: windows carry absolute totals because PQ.afterRestart re-bases cbFlushed/cbAcked
 	EnumerateCrashes(log, initImg, plan, func(k int, ch *CrashChoice, n int, img []byte) {
